@@ -18,7 +18,7 @@ from .front import Repo
 from .interp import Interp, Obligation
 from .sym import Unsupported
 
-TIMEOUT_MS = int(os.environ.get("VERIF_QUERY_TIMEOUT_MS", "20000"))
+TIMEOUT_MS = int(os.environ.get("VERIF_QUERY_TIMEOUT_MS", "6000"))
 
 
 class Unit:
@@ -47,11 +47,10 @@ def model_summary(model, ob: Obligation, limit: int = 60) -> Dict[str, str]:
     return out
 
 
-def discharge_one(ob: Obligation, want_smt2: bool = False) -> Dict:
-    if z3.is_true(z3.simplify(ob.goal)):
-        verdict, model, stats = "unsat", None, {"ms": 0, "backend": "syntactic"}
-    else:
-        verdict, model, stats = quant.check(ob.hyps, ob.goal, TIMEOUT_MS)
+STAGE2_BUDGET_MS = int(os.environ.get("VERIF_STAGE2_BUDGET_MS", "25000"))
+
+
+def _record(ob: Obligation, verdict, model, stats, want_smt2=False) -> Dict:
     rec = {
         "name": ob.name,
         "path": ob.path,
@@ -72,6 +71,44 @@ def discharge_one(ob: Obligation, want_smt2: bool = False) -> Dict:
     return rec
 
 
+def discharge_batch(obls: List[Obligation], idxs: List[int], want_smt2: bool = False) -> List:
+    """pass 1: bounded E-matching on every obligation.  pass 2: the ones not proved, cheapest first
+    (fewest hypotheses = earliest on their path), by hand instantiation, within a time budget; what the
+    budget does not reach stays `unknown` - never `proved`, never `failed`."""
+    from . import sym
+
+    out: Dict[int, Dict] = {}
+    todo = []
+    axioms = sym.string_axioms()
+    for i in idxs:
+        ob = obls[i]
+        if not getattr(ob, "_axioms_added", False):
+            ob.hyps = list(ob.hyps) + axioms
+            ob._axioms_added = True
+        if z3.is_true(z3.simplify(ob.goal)):
+            out[i] = _record(ob, "unsat", None, {"ms": 0, "backend": "syntactic"}, want_smt2)
+            continue
+        verdict, model, stats = quant.check(ob.hyps, ob.goal, TIMEOUT_MS, allow_stage2=False)
+        out[i] = _record(ob, verdict, model, stats, want_smt2)
+        if verdict == "unknown":
+            todo.append(i)
+    todo.sort(key=lambda i: (len(obls[i].hyps), i))
+    spent = 0
+    for i in todo:
+        if spent > STAGE2_BUDGET_MS:
+            break
+        ob = obls[i]
+        verdict, model, stats = quant.check(ob.hyps, ob.goal, TIMEOUT_MS, allow_stage2=True, skip_stage1=True)
+        stats["ms"] = stats.get("ms", 0) + out[i]["ms"]
+        spent += stats["ms"]
+        out[i] = _record(ob, verdict, model, stats, want_smt2)
+    return [(i, out[i]) for i in idxs]
+
+
+def discharge_one(ob: Obligation, want_smt2: bool = False) -> Dict:
+    return discharge_batch([ob], [0], want_smt2)[0][1]
+
+
 INNER_JOBS = int(os.environ.get("VERIF_INNER_JOBS", "8"))
 
 
@@ -84,7 +121,7 @@ def discharge_all(obls: List[Obligation], want_smt2: bool = False) -> List[Dict]
     n = len(obls)
     K = min(INNER_JOBS, max(1, n // 60))
     if K <= 1:
-        return [discharge_one(ob, want_smt2) for ob in obls]
+        return [rec for _i, rec in discharge_batch(obls, list(range(n)), want_smt2)]
     tmp = tempfile.mkdtemp(prefix="pyvc_")
     pids = []
     try:
@@ -93,7 +130,7 @@ def discharge_all(obls: List[Obligation], want_smt2: bool = False) -> List[Dict]
             if pid == 0:
                 code = 0
                 try:
-                    out = [(i, discharge_one(obls[i], want_smt2)) for i in range(k, n, K)]
+                    out = discharge_batch(obls, list(range(k, n, K)), want_smt2)
                     with open(os.path.join(tmp, f"{k}.json"), "w") as fh:
                         json.dump(out, fh)
                 except BaseException:
@@ -111,8 +148,8 @@ def discharge_all(obls: List[Obligation], want_smt2: bool = False) -> List[Dict]
             for i, rec in json.load(open(path)):
                 results[i] = rec
         for k in failed_shards:  # redo in-process (never drop an obligation)
-            for i in range(k, n, K):
-                results[i] = discharge_one(obls[i], want_smt2)
+            for i, rec in discharge_batch(obls, list(range(k, n, K)), want_smt2):
+                results[i] = rec
         return [results[i] for i in range(n)]
     finally:
         import shutil
